@@ -54,8 +54,6 @@ Inductive lres (A : Type) := LOk (a : A) | LRaise (u : ufam).
 Arguments LOk {A} a.
 Arguments LRaise {A} u.
 
-Inductive pval := PVNone | PVJson (obj : nat) | PVText (s : string).
-
 Inductive oline :=
   | OHint                                  (* "Please try --help for more information." -- ConsolePrinter.error prints it to STDOUT *)
   | OWarn                                  (* one "WARNING:  ..." message *)
@@ -66,7 +64,7 @@ Inductive oline :=
   | OEntry (i : nat)                       (* log.info(entry i of the diff report) *)
   | OValid (file : string) (idx : nat)     (* "<file>/<idx> is valid." *)
   | OInvalid (file : string) (idx : nat)   (* "<file>/<idx> is invalid due to:" + its messages *)
-  | OPath (prefix : string) (v : pval)     (* one yaml-paths result line: text up to the value, then the value *)
+  | OPath (text : string) (j : option nat) (* one yaml-paths result line: its text, then (for a container value) the JSON of object j *)
   | ODump (json : bool) (docs : list nat). (* the document(s) dumped to STDOUT *)
 
 Inductive effect :=
@@ -182,6 +180,7 @@ Fixpoint get_print (nodes : list pyobj) : list oline * option status :=
 Record get_args := mkget {
   ga_file : string;            (* args.yaml_file, "" when absent *)
   ga_nostdin : bool;
+  ga_noise : noise;
   ga_priv : bool; ga_priv_ok : bool;   (* --privatekey set; isfile and readable *)
   ga_pub : bool; ga_pub_ok : bool
 }.
@@ -195,27 +194,32 @@ Definition get_validate_errors (a : get_args) (tty : bool) : nat :=
                ga_pub a && negb (ga_pub_ok a);
                xorb (ga_pub a) (ga_priv a) ].
 
-(* [query] = how iterating processor.get_eyaml_values(yaml_path, mustexist=True) ends *)
-Definition get_main (a : get_args) (tty : bool) (load : raw1) (query : lres (list pyobj)) : crun :=
+(* [query] = how iterating processor.get_eyaml_values(yaml_path, mustexist=True) ends;
+   [qverb] = the number of logger.verbose messages the library emits while doing so *)
+Definition get_main (a : get_args) (tty : bool) (load : raw1) (qverb : nat) (query : lres (list pyobj)) : crun :=
   let nerr := get_validate_errors a tty in
   if negb (Nat.eqb nerr 0) then mkrun (Exit 1) (hints nerr) []
-  else match get_yaml_data load with
-       | L1Failed => mkrun (Exit 1) [OHint] []
-       | L1Uncaught c => mkrun (Uncaught (UCrash c)) [] []
-       | L1Ok _ =>
-           match query with
-           | LRaise UYpe => mkrun (Exit 1) [] []
-           | LRaise UEyaml => mkrun (Exit 2) [] []
-           | LRaise u => mkrun (Uncaught u) [] []
-           | LOk nodes =>
-               match nodes with
-               | [] => mkrun (Exit 1) [] []      (* fix: nothing matched (empty document) is a failure *)
-               | _ =>
-                   let '(ls, e) := get_print nodes in
-                   mkrun (match e with Some s => s | None => Exit 0 end) ls []
-               end
-           end
-       end.
+  else
+    (* "When dumping the document to STDOUT, mute all non-errors" (sic: when reading from STDIN) *)
+    let n := if get_in_stream a tty then mute_unless_forced (ga_noise a) else ga_noise a in
+    match get_yaml_data load with
+    | L1Failed => mkrun (Exit 1) [OHint] []
+    | L1Uncaught c => mkrun (Uncaught (UCrash c)) [] []
+    | L1Ok _ =>
+        let vb := log_verbose n (repeat OVerb qverb) in
+        match query with
+        | LRaise UYpe => mkrun (Exit 1) vb []
+        | LRaise UEyaml => mkrun (Exit 2) vb []
+        | LRaise u => mkrun (Uncaught u) vb []
+        | LOk nodes =>
+            match nodes with
+            | [] => mkrun (Exit 1) vb []      (* fix: nothing matched (empty document) is a failure *)
+            | _ =>
+                let '(ls, e) := get_print nodes in
+                mkrun (match e with Some s => s | None => Exit 0 end) (vb ++ ls) []
+            end
+        end
+    end.
 
 (* ------------------------------------------------------------------ *)
 (* yaml-diff                                                            *)
@@ -865,13 +869,17 @@ Record paths_args := mkpaths {
   pa_except : list string;
   pa_nofile : bool; pa_noexpression : bool; pa_noyamlpath : bool; pa_values : bool;
   pa_noescape : bool;
+  pa_fslash : bool;                (* args.pathsep is PathSeparators.FSLASH *)
   pa_nostdin : bool;
   pa_priv : bool; pa_priv_ok : bool; pa_pub : bool; pa_pub_ok : bool
 }.
 
-(* one search result: str(result), the unescaped rendering, and the value looked up for --values *)
+(* one search result: str(result), str() of each of its escaped segments, and the value looked up for --values *)
 Inductive valres := VNoNode | VNode (o : pyobj) | VRaise (u : ufam).
-Record pathrec := mkpr { pr_str : string; pr_noesc : string; pr_value : valres }.
+Record pathrec := mkpr { pr_str : string; pr_segs : list string; pr_value : valres }.
+(* --noescape: path_prefix + join_mark.join(str(segment) ...) *)
+Definition noescape_text (slash : bool) (segs : list string) : string :=
+  ((if slash then "/" else "") ++ join (if slash then "/" else ".") segs)%string.
 
 Definition paths_validate_errors (a : paths_args) (nfiles : nat) (files : list string) (tty : bool) : nat :=
   count_true [ Nat.eqb nfiles 0 && (tty || pa_nostdin a);
@@ -881,9 +889,6 @@ Definition paths_validate_errors (a : paths_args) (nfiles : nat) (files : list s
                xorb (pa_pub a) (pa_priv a) ].
 
 (* print_results *)
-Definition paths_value_text (o : pyobj) : pval :=
-  if is_container o then PVJson (po_id o) else PVText (escape_nl (po_str o)).
-
 Definition paths_line (a : paths_args) (file : string) (docidx : nat) (e : string * pathrec)
   : oline + ufam :=
   let '(expr, p) := e in
@@ -896,21 +901,22 @@ Definition paths_line (a : paths_args) (file : string) (docidx : nat) (e : strin
   let prefix :=
     ((if print_file then display_name file ++ "/" ++ str_of_nat docidx else "") ++
      (if print_expr then "[" ++ expr ++ "]" else "") ++ buf0 ++
-     (if print_path then (if pa_noescape a then pr_noesc p else pr_str p) else "") ++ buf1)%string in
+     (if print_path then (if pa_noescape a then noescape_text (pa_fslash a) (pr_segs p) else pr_str p) else "") ++
+     buf1)%string in
   if print_value then
     match pr_value p with
-    | VNoNode => inl (OPath prefix PVNone)
+    | VNoNode => inl (OPath prefix None)
     | VNode o =>
         if is_container o then
           match po_json o with
-          | JOk => inl (OPath prefix (PVJson (po_id o)))
+          | JOk => inl (OPath prefix (Some (po_id o)))
           | JRecursion => inr (UCrash "RecursionError")
           | JCrash c => inr (UCrash c)
           end
-        else inl (OPath prefix (PVText (escape_nl (po_str o))))
+        else inl (OPath (prefix ++ escape_nl (po_str o))%string None)
     | VRaise u => inr u
     end
-  else inl (OPath prefix PVNone).
+  else inl (OPath prefix None).
 
 Fixpoint paths_print (a : paths_args) (file : string) (docidx : nat) (es : list (string * pathrec))
   : list oline * option ufam :=
@@ -944,21 +950,21 @@ Fixpoint remove_path (s : string) (es : list (string * pathrec)) : list (string 
 (* per document: for every search expression (None = get_search_term failed) the results *)
 Definition expr_results := list (string * option (lres (list pathrec))).
 
-(* the search loop: (entries, saw a bad expression, hints) or an escaping exception *)
+(* the search loop: (entries, saw a bad expression, hints so far, an escaping exception) *)
 Fixpoint paths_collect (xs : expr_results) (acc : list (string * pathrec)) (bad : bool) (nh : nat)
-  : lres (list (string * pathrec) * bool * nat) :=
+  : list (string * pathrec) * bool * nat * option ufam :=
   match xs with
-  | [] => LOk (acc, bad, nh)
+  | [] => (acc, bad, nh, None)
   | (expr, None) :: r => paths_collect r acc true (S nh)
-  | (expr, Some (LRaise u)) :: r => LRaise u
+  | (expr, Some (LRaise u)) :: r => (acc, bad, nh, Some u)
   | (expr, Some (LOk rs)) :: r => paths_collect r (add_unique expr rs acc) bad nh
   end.
 Fixpoint paths_except (xs : expr_results) (acc : list (string * pathrec)) (bad : bool) (nh : nat)
-  : lres (list (string * pathrec) * bool * nat) :=
+  : list (string * pathrec) * bool * nat * option ufam :=
   match xs with
-  | [] => LOk (acc, bad, nh)
+  | [] => (acc, bad, nh, None)
   | (expr, None) :: r => paths_except r acc true (S nh)
-  | (expr, Some (LRaise u)) :: r => LRaise u
+  | (expr, Some (LRaise u)) :: r => (acc, bad, nh, Some u)
   | (expr, Some (LOk rs)) :: r =>
       paths_except r (fold_left (fun es p => remove_path (pr_str p) es) rs acc) bad nh
   end.
@@ -974,17 +980,19 @@ Fixpoint paths_docs (a : paths_args) (file : string) (ds : list pdoc) (idx : nat
   | PFailDoc :: r =>
       let '(st', ls, u) := paths_docs a file r (S idx) 3 in (st', OHint :: ls, u)
   | PDoc ss xs :: r =>
-      match paths_collect ss [] false 0 with
-      | LRaise u => (st, [], Some u)
-      | LOk (es, bad, nh) =>
-          let st1 := if bad then 1 else st in
+      let '(es, bad, nh, u1) := paths_collect ss [] false 0 in
+      let st1 := if bad then 1 else st in
+      match u1 with
+      | Some u => (st1, hints nh, Some u)
+      | None =>
           match es with
           | [] => let '(st', ls, u) := paths_docs a file r (S idx) st1 in (st', hints nh ++ ls, u)
           | _ =>
-              match paths_except xs es false 0 with
-              | LRaise u => (st1, hints nh, Some u)
-              | LOk (es2, bad2, nh2) =>
-                  let st2 := if bad2 then 1 else st1 in
+              let '(es2, bad2, nh2, u2) := paths_except xs es false 0 in
+              let st2 := if bad2 then 1 else st1 in
+              match u2 with
+              | Some u => (st2, hints nh ++ hints nh2, Some u)
+              | None =>
                   let '(pl, pu) := paths_print a file idx es2 in
                   match pu with
                   | Some u => (st2, hints nh ++ hints nh2 ++ pl, Some u)
